@@ -10,6 +10,8 @@ Operations on files f0, f1 (two grammar versions, two cache directories):
   C  parse(path, cache=True)  D  parse(path, cache=True, diff_cache=True)   N  parse(path) without cache
   R  drop the in-memory cache (new process)     X  delete the cache directory
   Z  write-during-parse: content is read, then the file is rewritten before the cache stamps the entry
+  B  back-dated write: new content whose modification time is strictly newer than the file's previous one but older than
+     the clock (cp -p, rsync -t, tar, a checkout that restores times): still "observable as a newer modification time"
 Postcondition of every parse: dump() equals a fresh non-caching parse of the file's *current* content.
 """
 import argparse
@@ -27,7 +29,7 @@ sys.path.insert(0, os.path.dirname(os.path.dirname(os.path.abspath(__file__))))
 from harness.treeutil import crash_signature  # noqa
 
 CONTENTS = ['(a := 1)\n', 'def f(a, /): pass\n', 'a = 1\n', 'def f():\n    return 2\n', 'a = 1\nb = (\n', 'class C:\n  x = [1,\n 2]\n\nprint(C)\n', '', 'if a:\n  b\nelse:\n  c\n']
-OPS = ['W', 'T', 'C', 'D', 'N', 'R', 'X', 'Z']
+OPS = ['W', 'T', 'C', 'D', 'N', 'R', 'X', 'Z', 'B']
 
 
 class World:
@@ -103,6 +105,13 @@ class World:
         self.tick()
         self.mtime[f] = self.clock
 
+    def write_backdated(self, f):
+        old = self.mtime.get(f, 0.0)
+        self.write(f)
+        # strictly newer than the file's previous mtime, but (if the file was written before) older than everything
+        # stamped since then
+        self.mtime[f] = old + 0.25 if old else self.clock
+
     def parse(self, f, gi, ci, cache, diff, race=False):
         from pathlib import Path
         from parso.file_io import FileIO
@@ -134,6 +143,8 @@ def run_history(args):
                     w.write(f)
                 elif op == 'T':
                     w.touch(f)
+                elif op == 'B':
+                    w.write_backdated(f)
                 elif op == 'R':
                     w.pc.parser_cache.clear()
                 elif op == 'X':
@@ -164,7 +175,7 @@ def histories(length, seed, sample):
             acts.append((op, 0, 0, 0))
         elif op in 'WT':
             acts += [(op, 0, 0, 0), (op, 1, 0, 0)]
-        elif op in 'Z':
+        elif op in 'ZB':
             acts += [(op, 0, 0, 0)]
         else:
             acts += [(op, 0, 0, 0), (op, 1, 0, 0), (op, 0, 1, 0), (op, 0, 0, 1)]
@@ -184,6 +195,12 @@ def histories(length, seed, sample):
             for p3 in ps:
                 for p4 in ps[:4]:
                     out.append([p1, ('W', 0, 0, 0), p2, p3, ('R', 0, 0, 0), p4])
+    # ... a cached file is replaced by a version with a back-dated (but newer) modification time, with and without a restart
+    for p1 in ps[:4]:
+        for p4 in ps[:4]:
+            out.append([('W', 0, 0, 0), p1, ('B', 0, 0, 0), p4])
+            out.append([('W', 0, 0, 0), p1, ('R', 0, 0, 0), ('B', 0, 0, 0), p4])
+            out.append([('W', 0, 0, 0), p1, ('B', 0, 0, 0), ('R', 0, 0, 0), p4, p4])
     # ... and two grammar versions taking turns on one file around a change of the file (an entry must never be
     # filed under, or served to, the other version)
     for ga in (0, 1):
